@@ -5,3 +5,4 @@ import Zeno.Props.C11
 import Zeno.Props.C13
 import Zeno.Props.C17
 import Zeno.Props.C14
+import Zeno.Props.C09
